@@ -182,6 +182,18 @@ ensure_operator = ensure_operation
 prevent_operator = prevent_operation
 
 
+def _find_literal_uses(root, literal):
+    """
+    Finds the places where the ``literal`` value appears in the code. The
+    pattern matcher compares constants with ``==``, which also holds between
+    ``1``, ``1.0`` and ``True`` (or ``0``, ``0.0`` and ``False``), so constants
+    of a different type than the ``literal`` are dropped afterwards.
+    """
+    return [match for match in root.find_matches(repr(literal))
+            if match.match_root.ast_name != "Constant"
+            or type(match.match_root.value) is type(literal)]
+
+
 class prevent_literal(PreventAssertionFeedback):
     """ Make sure that the given literal value does not appear in the student's
     code. """
@@ -199,7 +211,7 @@ class prevent_literal(PreventAssertionFeedback):
 
     def condition(self):
         literal = self.fields['literal']
-        uses = self.fields['root'].find_matches(repr(literal))
+        uses = _find_literal_uses(self.fields['root'], literal)
         if uses:
             self.update_location(uses[-1].match_location(False))
         return self._check_usage('use_count', uses)
@@ -221,7 +233,7 @@ class ensure_literal(EnsureAssertionFeedback):
 
     def condition(self):
         literal = self.fields['literal']
-        uses = self.fields['root'].find_matches(repr(literal))
+        uses = _find_literal_uses(self.fields['root'], literal)
         if uses:
             self.update_location(uses[-1].match_location(False))
         return self._check_usage('use_count', uses)
